@@ -441,7 +441,21 @@ func single(res *vc.UnitResult, i int, dir string, opt Options, prev Status) Sta
 		best.Output = "BACKENDS DISAGREE: " + best.Output
 	}
 	if best.Result == "sat" && !o.Cover {
-		best.Model = Model(file, o.Model)
+		var terms []string
+		for _, mt := range res.ModelTerms {
+			terms = append(terms, mt.Term)
+		}
+		if vals, err := Values(file, terms); err == nil {
+			var sb strings.Builder
+			for _, mt := range res.ModelTerms {
+				if v, ok := vals[mt.Term]; ok {
+					fmt.Fprintf(&sb, "%s = %s\n", mt.Label, v)
+				}
+			}
+			best.Model = sb.String()
+		} else {
+			best.Model = "model extraction failed: " + err.Error()
+		}
 	}
 	if best.Result == "unsat" && !opt.KeepFiles {
 		os.Remove(file)
@@ -472,7 +486,7 @@ func Model(file string, terms []string) string {
 	return s
 }
 
-// Values evaluates terms in a model of the file (used by replay drivers).
+// Values evaluates terms in a model of the file (used for counterexample reports and replay drivers).
 func Values(file string, terms []string) (map[string]string, error) {
 	data, err := os.ReadFile(file)
 	if err != nil {
@@ -481,33 +495,33 @@ func Values(file string, terms []string) (map[string]string, error) {
 	var sb strings.Builder
 	sb.Write(data)
 	for _, t := range terms {
-		fmt.Fprintf(&sb, "(get-value (%s))\n", t)
+		fmt.Fprintf(&sb, "(echo \"@@\")\n(get-value (%s))\n", t)
 	}
 	mf := file + ".values.smt2"
 	os.WriteFile(mf, []byte(sb.String()), 0o644)
 	defer os.Remove(mf)
-	ctx, cancel := context.WithTimeout(context.Background(), 30*time.Second)
-	defer cancel()
-	b, _ := exec.CommandContext(ctx, "z3-new", "-smt2", "-T:20", mf).CombinedOutput()
-	lines := strings.Split(string(b), "\n")
 	out := map[string]string{}
-	if len(lines) == 0 || strings.TrimSpace(lines[0]) != "sat" {
-		return nil, fmt.Errorf("not sat: %s", lines[0])
-	}
-	k := 0
-	for _, l := range lines[1:] {
-		l = strings.TrimSpace(l)
-		if l == "" || k >= len(terms) {
+	for _, bin := range []string{"z3-new", "z3"} {
+		ctx, cancel := context.WithTimeout(context.Background(), 40*time.Second)
+		b, _ := exec.CommandContext(ctx, bin, "-smt2", "-T:30", mf).CombinedOutput()
+		cancel()
+		parts := strings.Split(string(b), "@@")
+		if len(parts) == 0 || !strings.HasPrefix(strings.TrimSpace(parts[0]), "sat") {
 			continue
 		}
-		// ((term value))
-		if strings.HasPrefix(l, "((") {
-			inner := strings.TrimSuffix(strings.TrimPrefix(l, "(("), "))")
-			if strings.HasPrefix(inner, terms[k]+" ") {
-				out[terms[k]] = strings.TrimSpace(inner[len(terms[k]):])
+		for k, part := range parts[1:] {
+			if k >= len(terms) {
+				break
 			}
-			k++
+			v := strings.TrimSpace(part)
+			v = strings.TrimPrefix(v, "((")
+			v = strings.TrimSuffix(v, "))")
+			v = strings.TrimSpace(strings.TrimPrefix(v, terms[k]))
+			if !strings.Contains(v, "error") {
+				out[terms[k]] = strings.Join(strings.Fields(v), " ")
+			}
 		}
+		return out, nil
 	}
-	return out, nil
+	return nil, fmt.Errorf("no solver reproduced sat for value extraction")
 }
